@@ -179,18 +179,21 @@ theorem recovered_log_before_or_after (d : Crash.Disk) (hq : Crash.QuiescentS d)
     Crash.absLog d' = Crash.absLog d ∨ Crash.absLog d' = Crash.specApply (Crash.absLog d) op :=
   (Crash.crash_safe_corrected d hq op hok k c d1 d' hr ho).2.1
 
-/-! ### chains with I/O faults: failed appends, whose bytes stay behind the tail (observation O21, a recorded finding)
+/-! ### chains with I/O faults: failed appends, whose bytes stay behind the tail (defect O21: found here, since repaired in /repo)
 
     `ChainEvF` adds `failed b fault` to the chain events: an append that fails on an injected write or fsync fault — the
     call returns an error, the writer is rolled back in memory, the file keeps what landed. `chain_atomic_faults_stmt` says
     of such chains what `chain_atomic` says of fault-free ones (every acknowledged batch present, anything else present is
     one whole submitted batch — the pending failed one included, as C10 allows —, nothing partial, nothing fabricated,
-    modulo CRC-32C collisions). It is FALSE of the model, and of the code: -/
+    modulo CRC-32C collisions). For the writer as it was pinned (`Writer.append`: rollback in memory only) it is FALSE, and it was false
+    of the code; the repaired writer is `appendD` / `forceSealD` (Model/SegmentRepair.lean), which is what the segment suite now
+    compares the code with: -/
 
 /-- the witness, evaluated by the kernel: an acknowledged append, an append whose fsync fails and whose single payload
     embeds an entry frame `[42]` and a commit frame with that frame's CRC-32C, a shorter acknowledged append, a restart —
     three entries are recovered and index 7 reads `[42]`, which nobody stored. No CRC collision is involved. The same
-    input is replayed on the real code by the segment suite on every run (known finding O21). -/
+    input is run on the real code by the segment suite on every run (`seg-staleinject-*`: since the repair it must come back with
+    the two acknowledged entries only). -/
 theorem failed_append_stale_bytes_fabricate_an_entry : type_of% RaftWal.faultW3_outcome :=
   -- the statement (Proofs/SegmentChainFault.lean): `chainRunF faultInfo (freshSegment faultInfo) faultW3` is `.ok p` with
   -- `p.1.offsets.length = 3` and `p.1.getLog p.2 7 64 = .ok [42]`
